@@ -4,6 +4,8 @@
 -/
 import XonshVerif.Model.Peg
 import XonshVerif.Proofs.PegConsume
+import XonshVerif.Proofs.PegSpec
+import XonshVerif.Model.DriverPeg
 namespace XV.Peg
 variable (prog : Prog) (w : Array RTok)
 
@@ -227,5 +229,46 @@ def consW : Array RTok := #[{ ty := .NAME, strId := 1, isKw := false, isSoft := 
 example : noFalsyB consProg = true := by decide +kernel
 example : (execRule consProg consW 40 0 (St.init consW.size false false)).1 = .ok 3 ∧
     (execRule consProg consW 40 0 (St.init consW.size false false)).2.pos = 3 := by decide +kernel
+
+/-- **recogniser_sound_for_peg_semantics.**  The declarative semantics of `Proofs/PegSpec.lean` (`SRule prog w id p r`:
+    ordered choice, sequences with optional items, greedy `*`/`+`, separated lists, look-aheads, cut, forced items - no
+    cache, no fuel, no tokenizer state) is what the recogniser computes: for every program of the plain fragment (`plainB`:
+    no `memoize_left_rec` rule, no `invalid_` guard, no falsy action; decidable on every IR), every token list, every rule,
+    every amount of fuel and every state whose memo cache is sound (the initial state is), an answer `ok e` is a derivation
+    of a match ending at `e`, an answer `fail` a derivation of failure, and the cache stays sound - packrat memoisation is
+    transparent.  Running out of fuel and raised `SyntaxError`s answer neither. -/
+theorem recogniser_sound_for_peg_semantics (prog : Prog) (w : Array RTok) (hpl : plainB prog = true) (fuel id : Nat) (s : St)
+    (hc : CacheOK s) (hs : CSound prog w s) :
+    (∀ e, (execRule prog w fuel id s).1 = .ok e → SRule prog w id s.pos (some e)) ∧
+    (∀ m, (execRule prog w fuel id s).1 = .fail m → SRule prog w id s.pos none) ∧
+    CSound prog w (execRule prog w fuel id s).2 := by
+  have h := (specInv (prog := prog) w (plain_of_B prog hpl) fuel).rule id s hc hs
+  exact ⟨h.1.1, h.1.2, h.2⟩
+
+/-- from the initial state: what `parse` answers about the start rule is derivable at position 0 -/
+theorem recogniser_sound_from_start (prog : Prog) (w : Array RTok) (hpl : plainB prog = true) (fuel id : Nat) (b v : Bool) :
+    (∀ e, (execRule prog w fuel id (St.init w.size b v)).1 = .ok e → SRule prog w id 0 (some e)) ∧
+    (∀ m, (execRule prog w fuel id (St.init w.size b v)).1 = .fail m → SRule prog w id 0 none) := by
+  have h := recogniser_sound_for_peg_semantics prog w hpl fuel id (St.init w.size b v) (cacheOK_init _ _ _) (cSound_init w _ _ _)
+  exact ⟨h.1, h.2.1⟩
+
+/-- Non-vacuity: `s: t '+' t | t ; t(memo): NAME+` is plain, and on `a + a` the recogniser answers 3 - so the semantics
+    derives a match of rule 0 from 0 to 3. -/
+def plainProg : Prog := #[
+  { deco := .none, body := .alts [
+      { items := [⟨.call (.rule 1), false⟩, ⟨.call (.expect 7), false⟩, ⟨.call (.rule 1), false⟩], act := .truthy, cut := false },
+      { items := [⟨.call (.rule 1), false⟩], act := .truthy, cut := false }] false false },
+  { deco := .memo, body := .alts [{ items := [⟨.repeated .name, false⟩], act := .truthy, cut := false }] false false }]
+example : plainB plainProg = true := by decide +kernel
+example : SRule plainProg consW 0 0 (some 3) :=
+  (recogniser_sound_from_start plainProg consW (by decide +kernel) 40 0 false false).1 3 (by decide +kernel)
+
+/-- the facts the driver command `progfacts` reports for every generated IR ARE the hypotheses of the two theorems above -/
+theorem driver_noFalsy_is_hypothesis (prog : Prog) : XV.Driver.progNoFalsy prog = noFalsyB prog := rfl
+theorem driver_plain_is_hypothesis (prog : Prog) : XV.Driver.progPlain prog = plainB prog := by
+  unfold XV.Driver.progPlain plainB
+  congr 1; funext r
+  have h1 : (match r.deco with | .leftrec => false | _ => true) = (r.deco != .leftrec) := by cases r.deco <;> rfl
+  exact h1 ▸ rfl
 
 end XV.Peg
